@@ -3,7 +3,7 @@
 # /repo carrying a mutation (never touches /repo itself). "-" = no patch (sanity run).
 # Scratch lives in /root/work/mut; remove with: tools/mutcheck.sh --clean
 set -u
-M=/root/work/mut
+M=${MUTDIR:-/root/work/mut}
 if [ "${1:-}" = "--clean" ]; then
     git -C /repo worktree remove --force $M/repo 2>/dev/null
     rm -rf $M
